@@ -3102,7 +3102,9 @@ def transform_pseudo_instructions(items, constants, labels):
             env = ChainMap(constants, labels)
             value = imm.eval(position, env, item.line)
             value = c_int32(value).value  # signed imm
-            if value >= (-2**20) and value <= (2**20 - 1):
+            # (the distance to an absolute address held in a constant still changes
+            # while earlier items shrink, so only a label can take the short form)
+            if reference not in constants and value >= (-2**20) and value <= (2**20 - 1):
                 inst = JTypeInstruction(item.line, 'jal', rd='x1', imm=imm)
                 # shrink all subsequent labels by 4
                 new_labels = {k: v - 4 for k, v in labels.items() if v > position}
@@ -3123,7 +3125,7 @@ def transform_pseudo_instructions(items, constants, labels):
             env = ChainMap(constants, labels)
             value = imm.eval(position, env, item.line)
             value = c_int32(value).value  # signed imm
-            if value >= (-2**20) and value <= (2**20 - 1):
+            if reference not in constants and value >= (-2**20) and value <= (2**20 - 1):
                 inst = JTypeInstruction(item.line, 'jal', rd='x0', imm=imm)
                 # shrink all subsequent labels by 4
                 new_labels = {k: v - 4 for k, v in labels.items() if v > position}
